@@ -75,6 +75,8 @@ FORMS = {
     "kw-xy": ((1,), [("x", 1), ("y", 2)]), "kw-yx": ((1,), [("y", 2), ("x", 1)]), "kw-other": ((1,), [("x", 1), ("y", 3)]), "none": ((), []),
     # positional arguments that look like the default key of the call (1, x=1, y=2): a different call, hence a different key
     "mimic-kw-xy": (((1,), '{"x": 1, "y": 2}'), []),
+    # a keyword whose value is itself a dictionary: equal dictionaries are one argument value, whatever order their entries were inserted in
+    "kw-dict-pq": ((1,), [("opt", (("p", 1), ("q", 2)))]), "kw-dict-qp": ((1,), [("opt", (("q", 2), ("p", 1)))]), "kw-dict-other": ((1,), [("opt", (("p", 1), ("q", 3)))]),
 }
 
 
@@ -82,7 +84,7 @@ def key_of(hf, form):
     args, kw = FORMS[form]
     if hf == "parity":
         return ("parity", args[0] % 2 if args else "none")
-    return (args, tuple(sorted(kw)))
+    return (args, tuple(sorted((k, tuple(sorted(v)) if isinstance(v, tuple) else v) for k, v in kw)))
 
 
 def run(ctx):
@@ -107,7 +109,7 @@ def run(ctx):
             extra_two = pre[0]  # A also holds `two`
             ops = []
             for c in CLASSES:
-                forms = [f_ for f_ in FORMS if not (f_.startswith("mimic") and hf == "parity")] if c in ("A", "B") or ctx.thorough else ["one", "two", "minus2"]
+                forms = [f_ for f_ in FORMS if not (f_.startswith("mimic") and hf == "parity") and not (f_.startswith("kw-dict") and hf != "None")] if c in ("A", "B") or ctx.thorough else ["one", "two", "minus2"]
                 ops += [("call", c, f) for f in forms]
                 ops += [("check", c, "one"), ("check", c, "three"), ("get_all", c, None), ("clear", c, None), ("drop", c, "one"), ("add", c, "three")]
             for op in ops:
@@ -308,7 +310,7 @@ def evaluate(h, hf, live, extra_two, op):
 
     def callargs(form):
         args, kw = FORMS[form]
-        return [Seq(list(a_), "tuple") if isinstance(a_, tuple) else a_ for a_ in args], dict(kw)
+        return [Seq(list(a_), "tuple") if isinstance(a_, tuple) else a_ for a_ in args], {k: (DictV([[a_, b_] for a_, b_ in v]) if isinstance(v, tuple) else v) for k, v in kw}
 
     def construct(c, form):
         args, kw = callargs(form)
@@ -400,7 +402,7 @@ def evaluate(h, hf, live, extra_two, op):
         T[c][key_of(hf, form)] = obj
     # observe: non-creating first, then constructions
     for c2 in CLASSES:
-        for f2 in ("one", "two", "three", "minus1", "minus2", "none") + (("mimic-kw-xy", "kw-xy") if hf != "parity" else ()):
+        for f2 in ("one", "two", "three", "minus1", "minus2", "none") + (("mimic-kw-xy", "kw-xy") if hf != "parity" else ()) + (("kw-dict-qp", "kw-dict-other") if hf == "None" else ()):
             args, kw = callargs(f2)
             before = len(log.items)
             out = h.call(g["check_semi_singleton_entry_exists"], g[c2], *args, **kw)
@@ -408,7 +410,7 @@ def evaluate(h, hf, live, extra_two, op):
             if out.kind != "return" or len(log.items) != before or (want is None and out.value is not None and out.value is not False) or (want is not None and out.value is not want and out.value is not True):
                 return f"afterwards check({c2}, {f2}) reports {out!r}; the model's live mapping is {want!r}"
     for c2 in CLASSES:
-        for f2 in ("one", "three", "none", "none") + (("kw-xy", "mimic-kw-xy") if hf != "parity" else ()):
+        for f2 in ("one", "three", "none", "none") + (("kw-xy", "mimic-kw-xy") if hf != "parity" else ()) + (("kw-dict-qp", "kw-dict-pq") if hf == "None" else ()):
             out, new = construct(c2, f2)
             w = model_call(c2, f2, out, new, "afterwards ")
             if w:
@@ -428,7 +430,7 @@ def replay(hf, live, extra_two, op):
     opn, c, f = op
     if f:
         args, kw = FORMS[f]
-        a = ", ".join([repr(x) for x in args] + [f"{k}={v!r}" for k, v in kw])
+        a = ", ".join([repr(x) for x in args] + [f"{k}={(dict(v) if isinstance(v, tuple) else v)!r}" for k, v in kw])
     if opn == "call":
         L.append(f"r = {c}({a}); print(type(r).__name__, r)")
     elif opn == "check":
